@@ -73,6 +73,8 @@ PINS["power rule for the base replaces the exponent only at"] = ("C07", ["regres
 PINS["grad_and_aux refuses non-scalar and complex first outputs"] = ("C15", ["regress/C15/grad-and-aux-array-output.json", "regress/C15/grad-and-aux-complex-output.json"])
 PINS["grad_named counts positions among the parameters"] = ("C16", ["regress/C16/grad-named-bound-method.json", "regress/C16/grad-named-callable-object.json"])
 PINS["resolve a negative argnum among the function"] = ("C16", ["regress/C16/htp-negative-argnum.json", "regress/C16/tjp-negative-argnum.json"])
+PINS["traced tuples, lists and dicts compare by value"] = ("C06", ["regress/C06/traced-sequence-equality.json", "regress/C06/traced-dict-equality.json"])
+PINS["concat (NumPy 2"] = ("C15", ["regress/C15/concat-alias-rev.json", "regress/C15/concat-alias-fwd.json"])
 PINS["rfft/irfft family VJPs resolve an entry -1"] = ("C01", ["regress/C01/rfftn-s-minus-one.json"])
 PINS["transform the cotangent with the resolved lengths"] = ("C01", ["regress/C01/rfft2-s-last-minus-one.json"])
 PINS["applies to floating-point inputs only"] = ("C15", ["regress/C15/int-stack-forward-tangent.json"])
